@@ -273,11 +273,10 @@ Inductive op :=
 | ODisconnect (c : nat)
 | OAbort (c : nat).
 
-Section Params.
+(** *** One server connection (its backend has the session defaults [bdef]) *)
+Section Server.
   Variable valid : bytes -> bytes -> bool.     (* the backend's check of a value *)
-  Variable bdef : pmap.                         (* the backend's session defaults *)
-  Variable hb : pgs -> bool.                    (* pool.rs has_broken on a returned connection *)
-  Variable session : nat -> bool.               (* client c talks to a pool in session mode *)
+  Variable bdef : pmap.                         (* this backend's session defaults and read-only reports *)
 
   Definition fail (b : backend) : backend * list revent :=
     (mkB (b_sess b) (b_loc b) (b_snap b) (match b_txn b with TT => TE | t => t end), [RE]).
@@ -400,13 +399,48 @@ Section Params.
   Definition pool : pmap := set_from_list sp_new bdef true.
   Definition fresh_srv : srv := mkS fresh_backend (mkP pool false false).
 
-  Definition init : world := mkW (fun _ => fresh_srv) (fun _ => None) (fun _ => None) false [].
+  (** computable guards used by the theorems *)
+  Definition has5 (m : pmap) : bool :=
+    forallb (fun k => match pget k m with Some _ => true | None => false end) TRACKED.
+
+  Definition all_valid (m : pmap) : bool :=
+    forallb (fun k => match pget k m with Some v => valid k v | None => true end) TRACKED.
+
+  (** the backend's defaults are usable: the five tracked GUCs are there, under their canonical
+      names, and their values pass the backend's own check *)
+  Definition bdef_ok : bool :=
+    has5 bdef && all_valid bdef &&
+    forallb (fun k => opt_beq (pget k pool) (pget k bdef)) TRACKED.
+
+  Definition connect_valid (raw : list (bytes * bytes)) : bool :=
+    match startup_decode raw with
+    | Some ps => forallb (fun kv => negb (tracked (recase (fst kv))) || valid (recase (fst kv)) (snd kv)) ps
+    | None => true
+    end.
+
+End Server.
+
+(** *** The world: server connection [s] talks to a backend with defaults [bdefs s] (servers of a pool,
+    or connections of one server after an upgrade / a configuration change, may differ both in the
+    defaults of tracked GUCs and in read-only reports such as server_version, in_hot_standby);
+    [psrc] is the connection whose startup reports became the pool's snapshot (pool.rs validate:
+    the last server validated wins) *)
+Section World.
+  Variable valid : bytes -> bytes -> bool.
+  Variable bdefs : nat -> pmap.
+  Variable psrc : nat.
+  Variable hb : pgs -> bool.                    (* pool.rs has_broken on a returned connection *)
+  Variable session : nat -> bool.               (* client c talks to a pool in session mode *)
+
+  Definition wpool : pmap := pool (bdefs psrc).
+
+  Definition init : world := mkW (fun s => fresh_srv (bdefs s)) (fun _ => None) (fun _ => None) false [].
 
   Definition log_if (b : bool) (e : ev) (l : list ev) : list ev := if b then e :: l else l.
 
   (** release of server [s] by client [c] through checkin_cleanup *)
   Definition release (w : world) (c s : nat) (sv : srv) (cl : option cli) (oos : bool) (lg : list ev) : world :=
-    let '(sv', (rb, ra)) := checkin sv in
+    let '(sv', (rb, ra)) := checkin valid (bdefs s) sv in
     mkW (upd (w_srv w) s sv') (upd (w_cli w) c cl) (upd (w_owner w) s None) oos
         (log_if (rb || ra) (EvClean s rb ra) lg).
 
@@ -419,8 +453,8 @@ Section Params.
         match startup_decode raw with
         | None => mkW (w_srv w) (w_cli w) (w_owner w) (w_oos w) (EvRefused c :: w_log w)
         | Some ps =>
-          let cm := set_from_list pool ps false in
-          mkW (w_srv w) (upd (w_cli w) c (Some (mkC cm cm (est_startup pool raw) None)))
+          let cm := set_from_list wpool ps false in
+          mkW (w_srv w) (upd (w_cli w) c (Some (mkC cm cm (est_startup wpool raw) None)))
               (w_owner w) (w_oos w) (EvTold c cm :: w_log w)
         end
       end
@@ -437,13 +471,13 @@ Section Params.
         | Some (s, checkout) =>
           let sv0 := w_srv w s in
           let d := if checkout then sync_diff sv0 (c_map cl) else [] in
-          let sv1 := if checkout then sync_parameters sv0 (c_map cl) else sv0 in
+          let sv1 := if checkout then sync_parameters valid (bdefs s) sv0 (c_map cl) else sv0 in
           let lg1 := log_if (negb (is_nil_l d)) (EvSync c s d) (w_log w) in
-          let lg2 := EvStmt c s checkout (dirty_keys (truth sv1))
+          let lg2 := EvStmt c s checkout (dirty_keys (bdefs s) (truth sv1))
                             (tvals (eff (truth sv1))) (tvals (fun k => pget k (c_map cl)))
                             (tvals (fun k => pget k (c_est cl))) :: lg1 in
-          let oos := w_oos w || msg_oos (truth sv1) ss in
-          let '(b', evs) := be_query (truth sv1) ss in
+          let oos := w_oos w || msg_oos valid (bdefs s) (truth sv1) ss in
+          let '(b', evs) := be_query valid (bdefs s) (truth sv1) ss in
           let '(cm', p') := recv_all (Some (c_map cl)) (pg sv1) evs in
           let cm2 := match cm' with Some m => m | None => c_map cl end in
           let fr := frames evs in
@@ -473,7 +507,7 @@ Section Params.
         match c_held cl with
         | Some s =>
           if hb (pg (w_srv w s))
-          then mkW (upd (w_srv w) s fresh_srv) (upd (w_cli w) c None) (upd (w_owner w) s None)
+          then mkW (upd (w_srv w) s (fresh_srv (bdefs s))) (upd (w_cli w) c None) (upd (w_owner w) s None)
                    (w_oos w) (EvReplaced s :: w_log w)
           else mkW (w_srv w) (upd (w_cli w) c None) (upd (w_owner w) s None) (w_oos w) (w_log w)
         | None => mkW (w_srv w) (upd (w_cli w) c None) (w_owner w) (w_oos w) (w_log w)
@@ -484,30 +518,11 @@ Section Params.
   Definition run_from (w : world) (ops : list op) : world := fold_left step ops w.
   Definition run (ops : list op) : world := run_from init ops.
 
-  (** computable guards used by the theorems *)
-  Definition has5 (m : pmap) : bool :=
-    forallb (fun k => match pget k m with Some _ => true | None => false end) TRACKED.
-
-  Definition all_valid (m : pmap) : bool :=
-    forallb (fun k => match pget k m with Some v => valid k v | None => true end) TRACKED.
-
-  (** the backend's defaults are usable: the five tracked GUCs are there, under their canonical
-      names, and their values pass the backend's own check *)
-  Definition bdef_ok : bool :=
-    has5 bdef && all_valid bdef &&
-    forallb (fun k => opt_beq (pget k pool) (pget k bdef)) TRACKED.
-
-  Definition connect_valid (raw : list (bytes * bytes)) : bool :=
-    match startup_decode raw with
-    | Some ps => forallb (fun kv => negb (tracked (recase (fst kv))) || valid (recase (fst kv)) (snd kv)) ps
-    | None => true
-    end.
-
   (** every tracked value a client supplies in its startup packet is one the backend accepts *)
   Definition startup_valid (ops : list op) : bool :=
-    forallb (fun o => match o with OConnect _ raw => connect_valid raw | _ => true end) ops.
+    forallb (fun o => match o with OConnect _ raw => connect_valid valid raw | _ => true end) ops.
 
-End Params.
+End World.
 
 (** ** Concrete instances (the mock backend of the wire harness) *)
 Fixpoint is_prefix (p s : bytes) : bool :=
@@ -528,8 +543,8 @@ Definition MOCK_DEF : pmap := Eval vm_compute in
 Definition no_session (c : nat) : bool := false.
 Definition all_session (c : nat) : bool := true.
 (** transaction-mode pool / session-mode pool of the harness *)
-Definition run_mock (ops : list op) : list ev := rev (w_log (run marker_valid MOCK_DEF is_unclean no_session ops)).
-Definition run_mock_s (ops : list op) : list ev := rev (w_log (run marker_valid MOCK_DEF is_unclean all_session ops)).
+Definition run_mock (ops : list op) : list ev := rev (w_log (run marker_valid (fun _ => MOCK_DEF) 0 is_unclean no_session ops)).
+Definition run_mock_s (ops : list op) : list ev := rev (w_log (run marker_valid (fun _ => MOCK_DEF) 0 is_unclean all_session ops)).
 
 (** ** Checkers over a log (used by the refutation witnesses and by the correspondence) *)
 Definition vals_eqb (a b : list (option bytes)) : bool :=
@@ -620,3 +635,11 @@ Fixpoint unhex (s : string) : bytes :=
   | String a (String b r) => (hexd a * 16 + hexd b) :: unhex r
   | _ => []
   end.
+
+(** heterogeneous pools of the harness: server connection s has the defaults [defs_of l s] *)
+Definition defs_of (l : list (nat * pmap)) (s : nat) : pmap :=
+  match find (fun p => Nat.eqb (fst p) s) l with Some p => snd p | None => MOCK_DEF end.
+Definition run_het (l : list (nat * pmap)) (psrc : nat) (sess : bool) (ops : list op) : list ev :=
+  rev (w_log (run marker_valid (defs_of l) psrc is_unclean (fun _ => sess) ops)).
+Definition run_het_c (l : list (nat * pmap)) (psrc : nat) (sess : bool) (ops : list op) : list bytes * list cev :=
+  compact [] (run_het l psrc sess ops).
